@@ -9,6 +9,11 @@
                                 core.InitialPackagePath, here the input `cur`; the filepath.Join fall-back of `@` forms),
                                 parseBuildLabelSubrepo (`@sub//pkg:name`, `///sub//pkg:name`), packageKey.String
      src/core/graph.go        : PackageByLabel (keyed by package name AND subrepo), PackageMap (keyed by packageKey.String())
+     src/core/target_set.go   : TargetSet.Add / Match / MatchExact / AllTargets
+     src/core/state.go        : AddOriginalTarget on the TargetSet, isOriginalTarget (its returned condition is TRANSLATED
+                                from the source: Gen.is_original_cond), the :all loop of ActivateTarget, queueTargetAsync's
+                                queueing of declared dependencies;  src/plz/plz.go : the condition under which a built
+                                target is handed to QueueTestTarget
    Every string literal of the filter functions comes from Gen/LabelFilter.v (regenerated from the source by gotrans,
    which also pins the statement shape of each function).  Labels, targets and packages carry their Subrepo.
    No proofs here. *)
@@ -373,6 +378,98 @@ Definition add_original (st : state) (originals : list label) (l : label) : list
 Definition expand_originals (st : state) (g : graph) (requested : list label) (need_tests : bool) : list label :=
   expand_labels st g (fold_left (add_original st) requested []) need_tests.
 
+(* ---- target_set.go, original targets (round-2 follow-up) ---------------------------------------------- *)
+
+(* packageKey{Name, Subrepo};  label.packageKey() *)
+Definition pkey := (str * str)%type.
+Definition pkey_eqb (a b : pkey) : bool := str_eqb (fst a) (fst b) && str_eqb (snd a) (snd b).
+Definition label_key (l : label) : pkey := (l_pkg l, l_sub l).
+
+(* type TargetSet struct { targets map[BuildLabel]struct{}; packages map[packageKey]struct{}; everything []BuildLabel }
+   the two maps as lists looked up by existsb (sets) *)
+Record target_set := { ts_targets : list label; ts_packages : list pkey; ts_everything : list label }.
+Definition empty_ts : target_set := {| ts_targets := []; ts_packages := []; ts_everything := [] |}.
+
+(* func (ts *TargetSet) Add(label BuildLabel);  None = the panic on a `...` label *)
+Definition ts_add (ts : target_set) (l : label) : option target_set :=
+  if is_all_subpackages l then None
+  else if is_all_targets l
+       then Some {| ts_targets := ts_targets ts; ts_packages := label_key l :: ts_packages ts;
+                    ts_everything := ts_everything ts ++ [l] |}
+       else Some {| ts_targets := l :: ts_targets ts; ts_packages := ts_packages ts;
+                    ts_everything := ts_everything ts ++ [l] |}.
+
+Definition mem_label (l : label) (ls : list label) : bool := existsb (label_eqb l) ls.
+
+(* func (ts *TargetSet) Match(label BuildLabel) (bool, bool) : (matched, wasExact) *)
+Definition ts_match (ts : target_set) (l : label) : bool * bool :=
+  if mem_label l (ts_targets ts) then (true, true)
+  else (existsb (pkey_eqb (label_key l)) (ts_packages ts), false).
+
+(* func (ts *TargetSet) MatchExact(label BuildLabel) bool *)
+Definition ts_match_exact (ts : target_set) (l : label) : bool := mem_label l (ts_targets ts).
+
+(* AddOriginalTarget(label, true) on state.progress.originalTargets *)
+Definition add_original_ts (st : state) (ts : target_set) (l : label) : option target_set :=
+  if any_includes (st_exclude_targets st) l then Some ts else ts_add ts l.
+
+Fixpoint originals (st : state) (ts : target_set) (requested : list label) : option target_set :=
+  match requested with
+  | [] => Some ts
+  | l :: r => match add_original_ts st ts l with None => None | Some ts' => originals st ts' r end
+  end.
+
+(* func (state *BuildState) isOriginalTarget(target, false): the returned condition is Gen.is_original_cond, translated
+   from the source; its arguments are Match's two results, state.ShouldInclude(target) and - should the source ever
+   use it - target.ShouldInclude(state.Include, state.Exclude) *)
+Definition is_original (st : state) (ts : target_set) (t : target) : bool :=
+  let '(matched, was_exact) := ts_match ts (t_label t) in
+  is_original_cond matched was_exact (state_should_include st t)
+                   (target_should_include t (st_include st) (st_exclude st)).
+
+(* ---- which tests a `plz test` run executes (plz.Run + ActivateTarget + queueTargetAsync) ------------------- *)
+
+(* the declared dependencies of the graph's targets *)
+Definition depmap := list (label * list label).
+Definition deps_of (dm : depmap) (l : label) : list label :=
+  match find (fun x => label_eqb (fst x) l) dm with Some x => snd x | None => [] end.
+
+Definition all_targets (g : graph) : list target := flat_map p_targets g.
+
+(* ActivateTarget(pkg, label, OriginalTarget, _) for one original label: the members of a requested :all that
+   state.ShouldInclude accepts (only the tests when NeedTests), or the named target itself *)
+Definition activate (st : state) (g : graph) (need_tests : bool) (l : label) : list label :=
+  if is_all_targets l
+  then match package_by_label g l with Some p => add_package st need_tests p | None => [] end
+  else [l].
+
+Definition roots (st : state) (g : graph) (need_tests : bool) (ts : target_set) : list label :=
+  flat_map (activate st g need_tests) (ts_everything ts).
+
+(* queueTargetAsync: every declared dependency of a queued target is queued too.  One round over the targets of the
+   graph (`universe`), iterated; the queued - and therefore built - targets are a sublist of the universe. *)
+Definition queue_step (dm : depmap) (universe queued : list label) : list label :=
+  filter (fun l => mem_label l queued || existsb (fun q => mem_label l (deps_of dm q)) queued) universe.
+
+Fixpoint queued_after (n : nat) (dm : depmap) (universe queued : list label) : list label :=
+  match n with
+  | O => queued
+  | S n' => let next := queue_step dm universe queued in
+            if Nat.eqb (length next) (length queued) then queued   (* nothing new was queued: done *)
+            else queued_after n' dm universe next
+  end.
+
+Definition built (st : state) (g : graph) (dm : depmap) (need_tests : bool) (ts : target_set) : list label :=
+  let universe := map t_label (all_targets g) in
+  let rs := roots st g need_tests ts in
+  queued_after (length universe) dm universe (filter (fun l => mem_label l rs) universe).
+
+(* plz.Run, completeAction: `if state.NeedTests && task.Target.IsTest() && state.IsOriginalTarget(task.Target)
+   { state.QueueTestTarget(task.Target) }` for every built target; NeedTests = true *)
+Definition tests_run (st : state) (g : graph) (dm : depmap) (ts : target_set) : list label :=
+  let b := built st g dm true ts in
+  map t_label (filter (fun t => mem_label (t_label t) b && t_test t && is_original st ts t) (all_targets g)).
+
 (* ---- correspondence cases ------------------------------------------------------------------------------ *)
 
 Definition tgt := (str * list str * bool)%type.            (* name, labels, is a test *)
@@ -404,7 +501,13 @@ Inductive case :=
 | CExpand (cur : str) (g : list pkg) (include exclude : list str) (labels : list lab) (need_tests : bool)
           (out : list lab)
 | COrig (cur : str) (g : list pkg) (include exclude : list str) (requested : list lab) (need_tests : bool)
-        (out : list lab).
+        (out : list lab)
+(* AddOriginalTarget for every requested label, then IsOriginalTarget of every target of the graph: those it accepts *)
+| CIsOrig (cur : str) (g : list pkg) (include exclude : list str) (requested : list lab) (out : list lab)
+(* a `plz test` run over the graph with dependency edges (the real state's queues, driven as plz.Run drives them):
+   the targets handed to QueueTestTarget, in graph order *)
+| CTested (cur : str) (g : list pkg) (deps : list (lab * list lab)) (include exclude : list str)
+          (requested : list lab) (out : list lab).
 
 Definition lab_eqb (a b : lab) : bool :=
   str_eqb (fst (fst a)) (fst (fst b)) && str_eqb (snd (fst a)) (snd (fst b)) && str_eqb (snd a) (snd b).
@@ -441,5 +544,22 @@ Definition check (c : case) : bool :=
       match set_include_and_exclude cur empty_state inc exc with
       | None => false
       | Some st => labs_eqb (map un_label (expand_originals st (mk_graph g) (map mk_label req) nt)) out
+      end
+  | CIsOrig cur g inc exc req out =>
+      match set_include_and_exclude cur empty_state inc exc with
+      | None => false
+      | Some st => match originals st empty_ts (map mk_label req) with
+                   | None => false
+                   | Some ts => labs_eqb (map un_label (map t_label (filter (is_original st ts) (all_targets (mk_graph g))))) out
+                   end
+      end
+  | CTested cur g deps inc exc req out =>
+      match set_include_and_exclude cur empty_state inc exc with
+      | None => false
+      | Some st => match originals st empty_ts (map mk_label req) with
+                   | None => false
+                   | Some ts => labs_eqb (map un_label (tests_run st (mk_graph g)
+                                                         (map (fun x => (mk_label (fst x), map mk_label (snd x))) deps) ts)) out
+                   end
       end
   end.
